@@ -74,7 +74,7 @@ PROPS = {
                         "writes through reflection or unsafe are not seen by the extractor; the reflection dump of the tree before/after every run covers them differentially"],
     },
     "C02": {
-        "gens": [],
+        "gens": ["ChanOps"],
         "lean": "Anko.Props.C02",
         "streams": [{"name": "cancel", "n_quick": 150, "n_thorough": 1500}],
         "trusted": ["the interpreter model mirrors every ctx.Done() poll of vm/*.go on fragment F0 (validated each run: the counting context cancels the real "
